@@ -118,6 +118,8 @@ SameProjection(S, e) ==
   /\ \A i \in DOMAIN e.isrem : e.isrem[i][2] = (IF IsRemovedTok(S, e.isrem[i][1]) THEN 1 ELSE 0)
   /\ e.cap >= S.capLow
 
+SoftClauses == {"C12:removed-links"}
+
 Stop(what) == /\ bad' = <<l, what, Rec[l]>>
               /\ l' = Len(Rec) + 1
               /\ UNCHANGED vars
@@ -130,6 +132,9 @@ TNext ==
         /\ gen' = <<>> /\ val' = <<>> /\ capLow' = e.a /\ tok' = <<>> /\ nissued' = 0
         /\ path' = <<[op |-> "reset"]>> /\ last' = [NoResult EXCEPT !.drops = live]
         /\ l' = l + 1 /\ bad' = bad
+     ELSE IF e.op = "broken" THEN
+        \* the crate's own accessors panicked while the state was read back after the previous call
+        Stop({(IF path = <<>> THEN "C13" ELSE EffectProp(path[Len(path)].op)) \o ":state-unreadable", "C05:state-unreadable"})
      ELSE IF e.op = "inject" THEN
         \* slot e.a went through e.b remove/new_node cycles that were not executed one by one
         \* (the recorder rewrote its generation; the thorough tier checks == with the real cycling)
@@ -154,8 +159,11 @@ TNext ==
      ELSE LET c == CallOf(S, e) IN
           IF ~ValidCall(S, c) THEN Stop({"C07:slot-lost"})      \* a freed slot is not reusable although it is young
           ELSE LET o == Step(S, c) m == Mismatch(S, e, c, o) IN
-               IF m # {} THEN Stop(m)
-               ELSE DoP(c, FALSE) /\ l' = l + 1 /\ bad' = bad
+               \* links reported by REMOVED slots are not part of the specification's state: such a
+               \* mismatch is reported (C12) but validation continues, so that it cannot hide a later one
+               IF m \ SoftClauses # {} THEN Stop(m)
+               ELSE /\ (m = {} \/ PrintT(<<"TRACE-SOFT", l, m>>))
+                    /\ DoP(c, FALSE) /\ l' = l + 1 /\ bad' = bad
 
 TSpec == TInit /\ [][TNext]_tvars
 
